@@ -44,8 +44,8 @@ class C07(Check):
                 if cls in ALLW:
                     out.append(opsem.make_task(scopes.SIG3, conds, True, self.cfgs, ("type", "T21", 0, True), via="api", cls=cls, scope="B3dup"))
         plan = [("L3", 4, WEAK, ("T21", 0), 1), ("L3", 3, ("strong",), (1, 1), 1)] if quick else \
-               [("L3", 4, WEAK, (2, 2), 3), ("L3T", 4, WEAK, ("T21", 0), 1), ("L3PLUS", 3, WEAK, ("T21", 0), 1),
-                ("L3", 4, ("strong",), ("T21", 0), 1)]
+               [("L3", 4, WEAK, (2, 2), 2), ("L3T", 4, WEAK, ("T21", 0), 1), ("L3PLUS", 3, WEAK, ("T21", 0), 1),
+                ("L3", 4, ("strong",), (1, 1), 1)]
         for alpha_name, size, want, tq, per_class in plan:
             reps, st = scopes.structural_scope(getattr(scopes, alpha_name), scopes.SIG3, size, want, seed, per_class)
             self.stats["B3(%d)-%s-%s" % (size, alpha_name, "+".join(want))] = st
